@@ -314,6 +314,20 @@ func (cs *State) OnStart() error {
 		return err
 	}
 
+	// A crash leaves at most an unacknowledged tail of the WAL head undecodable.
+	// Cut it off before anything is appended behind it: a search for an
+	// #ENDHEIGHT marker skips such a region, so the node would go on logging
+	// behind it, and the repair that a later crash triggers cuts the head there,
+	// taking fsynced records and markers with it.
+	if torn, err := walHeadIsTorn(cs.config.WalFile()); err != nil {
+		return err
+	} else if torn {
+		cs.Logger.Error("the WAL file ends in a corrupted record; attempting repair")
+		if err := cs.repairWalHead(); err != nil {
+			return err
+		}
+	}
+
 	// We may have lost some votes if the process crashed reload from consensus
 	// log to catchup.
 	if cs.doWALCatchup {
@@ -362,31 +376,9 @@ func (cs *State) OnStart() error {
 
 			cs.Logger.Error("the WAL file is corrupted; attempting repair", "err", err)
 
-			// 1) prep work
-			if err := cs.wal.Stop(); err != nil {
-				return err
-			}
-
 			repairAttempted = true
 
-			// 2) backup original WAL file
-			corruptedFile := fmt.Sprintf("%s.CORRUPTED", cs.config.WalFile())
-			if err := tmos.CopyFile(cs.config.WalFile(), corruptedFile); err != nil {
-				return err
-			}
-
-			cs.Logger.Debug("backed up WAL file", "src", cs.config.WalFile(), "dst", corruptedFile)
-
-			// 3) try to repair (WAL file will be overwritten!)
-			if err := repairWalFile(corruptedFile, cs.config.WalFile()); err != nil {
-				cs.Logger.Error("the WAL repair failed", "err", err)
-				return err
-			}
-
-			cs.Logger.Info("successful WAL repair")
-
-			// reload WAL file
-			if err := cs.loadWalFile(); err != nil {
+			if err := cs.repairWalHead(); err != nil {
 				return err
 			}
 		}
@@ -409,6 +401,34 @@ func (cs *State) OnStart() error {
 	cs.scheduleRound0(cs.GetRoundState())
 
 	return nil
+}
+
+// repairWalHead rewrites the WAL head file up to its first undecodable record
+// (a copy of the original is kept next to it) and reopens the WAL.
+func (cs *State) repairWalHead() error {
+	// 1) prep work
+	if err := cs.wal.Stop(); err != nil {
+		return err
+	}
+
+	// 2) backup original WAL file
+	corruptedFile := fmt.Sprintf("%s.CORRUPTED", cs.config.WalFile())
+	if err := tmos.CopyFile(cs.config.WalFile(), corruptedFile); err != nil {
+		return err
+	}
+
+	cs.Logger.Debug("backed up WAL file", "src", cs.config.WalFile(), "dst", corruptedFile)
+
+	// 3) try to repair (WAL file will be overwritten!)
+	if err := repairWalFile(corruptedFile, cs.config.WalFile()); err != nil {
+		cs.Logger.Error("the WAL repair failed", "err", err)
+		return err
+	}
+
+	cs.Logger.Info("successful WAL repair")
+
+	// reload WAL file
+	return cs.loadWalFile()
 }
 
 // timeoutRoutine: receive requests for timeouts on tickChan and fire timeouts on tockChan
